@@ -1,5 +1,6 @@
 """C09 -- the reference water level is the origin of the master curve"""
 
+import math
 import os
 import sqlite3
 
@@ -28,6 +29,7 @@ REQUIRED = {
     tier: {
         'on-grid-references-accepted-and-origin-checked': 200,
         'off-grid-references-refused': 40,
+        'references-at-the-exact-starting-level-of-the-highest-interval': 2,
         'on-grid-reference-accepted-after-a-refused-one-on-the-same-connection': 5,
         'default-origin-checked': 10,
         'references-inexact-in-binary': 60,
@@ -58,6 +60,33 @@ def check_combo(ctx, case, kind, gs, rng, max_levels, n_cli, index):
         if connection is not None:
             connection.close()
         return
+    top_level = None
+    if index % 3 == 1:
+        # a logger that reports whole grid units: the record is shifted so that the interval with the
+        # highest initial level starts exactly on a grid level (its own crossing of that level is then
+        # at exactly zero depth / time), and that level is among the references tried
+        # (highest among the intervals that make it into the curve: assemble once to know them)
+        z0 = None
+        if curves_common.run_curve(connection, kind) is None:
+            table = 'rising_interval' if kind == 'rise' else 'recession_interval'
+            (z0,) = connection.execute('SELECT max(w.zeta_mm) FROM {} AS c JOIN water_level AS w ON w.epoch = c.start_epoch'.format(table)).fetchone()
+        if z0 is not None:
+            top_level = int(math.ceil(z0 / gs))
+            delta = top_level * gs - z0
+            connection.close()
+            target = top_level * gs
+            case = dict(case, z=[[t, target if abs(v + delta - target) <= 1e-9 * max(1.0, abs(target)) else v + delta] for t, v in case['z']])
+            connection, _, exc = curves_common.build_dataset(ctx, case, 'function')
+            if exc is not None:
+                rec.hit('dataset-could-not-be-built')
+                if connection is not None:
+                    connection.close()
+                return
+            on_level = connection.execute('SELECT count(*) FROM water_level WHERE zeta_mm = ?', (top_level * gs,)).fetchone()[0]
+            if on_level:
+                rec.hit('datasets-whose-highest-interval-starts-exactly-on-a-grid-level')
+            else:
+                top_level = None
     exc = curves_common.run_curve(connection, kind)
     if exc is not None:
         key, desc = curves_common.classify_outcome(exc)
@@ -79,6 +108,9 @@ def check_combo(ctx, case, kind, gs, rng, max_levels, n_cli, index):
         picked = sorted(set(picked) | ({-1, 0, 1} & set(levels)))
     else:
         picked = levels
+    if top_level is not None and top_level in levels:
+        picked = sorted(set(picked) | {top_level})
+        rec.hit('references-at-the-exact-starting-level-of-the-highest-interval')
     db = None
     if n_cli:
         db = os.path.join(ctx.workdir, 'c09-{}.sqlite3'.format(index))
